@@ -169,14 +169,7 @@ func c01Eval(c *ctx, cs c01Case) {
 			}
 			raw := map[string]interface{}{}
 			for k, v := range cs.Sub {
-				switch {
-				case v.Item != nil:
-					raw[k] = real.Build(v.Item)
-				case v.IsS:
-					raw[k] = string(v.Str)
-				case v.Slot != nil:
-					raw[k] = slotRaw(v.Slot)
-				}
+				raw[k] = rawOf(v)
 			}
 			msg = msg.FillVariables(raw)
 			msg = msg.SetWaitBit(m.W == 1)
@@ -207,43 +200,23 @@ func c01Eval(c *ctx, cs c01Case) {
 	}
 }
 
-// slotRaw: a slot value whose kind is not known here is passed in the widest
-// signed/unsigned type; the template generator stores the kind's natural value
-// in exactly one of Int/Uint. Floats are passed as bits through Uint together
-// with the F flag in Var ("f4"/"f8").
-func slotRaw(s *ref.Slot) interface{} {
-	switch s.Var {
-	case "#f4":
-		return real.SlotValue(ref.F4, ref.Slot{Uint: s.Uint})
-	case "#f8":
-		return real.SlotValue(ref.F8, ref.Slot{Uint: s.Uint})
-	case "#bool":
-		return s.Uint != 0
-	case "#b":
-		return int(s.Uint)
-	case "#i":
-		return s.Int
-	}
-	return s.Uint
+// valSlot wraps a model slot value of kind k as a fill-in value.
+func valSlot(k ref.Kind, s ref.Slot) ref.Val {
+	t := s
+	return ref.Val{Slot: &t, K: k}
 }
 
-func tagSlot(k ref.Kind, s ref.Slot) *ref.Slot {
-	t := s
+// rawOf renders a model fill-in value as the natural Go value for the API.
+func rawOf(v ref.Val) interface{} {
 	switch {
-	case k == ref.F4:
-		t.Var = "#f4"
-	case k == ref.F8:
-		t.Var = "#f8"
-	case k == ref.BOOLEAN:
-		t.Var = "#bool"
-	case k == ref.B:
-		t.Var = "#b"
-	case k.IsInt():
-		t.Var = "#i"
-	default:
-		t.Var = "#u"
+	case v.Item != nil:
+		return real.Build(v.Item)
+	case v.IsS:
+		return string(v.Str)
+	case v.Slot != nil:
+		return real.SlotValue(v.K, *v.Slot)
 	}
-	return &t
+	return nil
 }
 
 // c01Template draws a template, expansion counts and a total assignment, and
@@ -297,7 +270,7 @@ func c01Template(g *gen.G) (tpl *ref.Item, counts map[string]int, sub map[string
 		for i, s := range n.Slots {
 			if s.Var != "" {
 				v := g.Value(x.Kind)
-				sub[s.Var] = ref.Val{Slot: tagSlot(x.Kind, v)}
+				sub[s.Var] = valSlot(x.Kind, v)
 				n.Slots[i] = v
 			}
 		}
